@@ -255,15 +255,15 @@ def make_data_dict(filename):
     """
     if os.path.splitext(filename)[1] == '.gz':
         import gzip
-        f = gzip.open(filename)
+        f = gzip.open(filename, 'rt')
     elif os.path.splitext(filename)[1] == '.zip':
-        import zipfile
+        import zipfile, io
         archive = zipfile.ZipFile(filename)
         namelist = archive.namelist()
         if len(namelist) != 1:
             raise ValueError('Must be only a single data file in zip '
                              'archive: %s' % filename)
-        f = archive.open(namelist[0])
+        f = io.TextIOWrapper(archive.open(namelist[0]))
     else:
         f = open(filename)
 
